@@ -306,7 +306,7 @@ pub fn dispatch(kind: &str, v: &Value) -> Option<Outcome> {
 pub fn run(ctx: &Ctx) -> i32 {
     let mut st = ctx.run_replays(&dispatch);
     let t = ctx.tier;
-    let (len, total) = t.pick((22usize, 60000u64), (100, 600000));
+    let (len, total) = t.pick((22usize, 200000u64), (100, 600000));
     for (name, exact) in [("histories-exact", true), ("histories-mixed", false)] {
         let cfg = cfg_for(t, exact);
         st.merge(ctx.run_prop(name, total / 2, move || recipe_strategy(len), move |r| Some(HistCase { oracle: "c08".into(), hist: elaborate(&cfg, r) })));
